@@ -35,7 +35,8 @@ def one(spec):
     os.makedirs(SCR, exist_ok=True)
     res = {}
     try:
-        r = sh("git", "-C", "/repo", "worktree", "add", "-q", "--detach", wt, "HEAD")
+        base = (json.load(open(os.path.join(d, "meta.json"))).get("base") if d else None) or "HEAD"
+        r = sh("git", "-C", "/repo", "worktree", "add", "-q", "--detach", wt, base)
         assert r.returncode == 0, r.stderr
         r = sh("git", "-C", wt, "apply", patch)
         assert r.returncode == 0, "patch does not apply: " + r.stderr
